@@ -5,12 +5,16 @@
 package harness
 
 import (
+	"encoding/json"
 	"errors"
 	"fmt"
+	"os"
+	"path/filepath"
 	"runtime/debug"
 	"sort"
 	"strings"
 
+	"github.com/ajitpratap0/GoSQLX/pkg/config"
 	gerrors "github.com/ajitpratap0/GoSQLX/pkg/errors"
 	"github.com/ajitpratap0/GoSQLX/pkg/gosqlx"
 	"github.com/ajitpratap0/GoSQLX/pkg/linter"
@@ -68,6 +72,8 @@ func (in *Instance) Reset() {
 	metrics.Reset()
 	gerrors.ClearSuggestionCache()
 	gerrors.ResetSuggestionCacheStats()
+	config.ClearConfigCache()
+	config.ResetConfigCacheStats()
 	if Hooks.DrainPools != nil {
 		Hooks.DrainPools()
 	}
@@ -479,7 +485,33 @@ func OpByName(n string) Op {
 	panic("no op " + n)
 }
 
+// configPath is a small JSON configuration file under /verif/.work (written once).
+var configPath = func() string {
+	root := os.Getenv("VERIF_ROOT")
+	if root == "" {
+		root = "/verif"
+	}
+	p := filepath.Join(root, ".work", "run", "c10-config.json")
+	want := []byte(`{"format":{"indent":4,"maxLineLength":80},"validation":{"dialect":"postgresql"}}`)
+	if b, err := os.ReadFile(p); err != nil || string(b) != string(want) {
+		os.MkdirAll(filepath.Dir(p), 0o755)
+		tmp := fmt.Sprintf("%s.%d", p, os.Getpid())
+		if os.WriteFile(tmp, want, 0o644) == nil {
+			os.Rename(tmp, p)
+		}
+	}
+	return p
+}()
+
 var extraOps = []Op{
+	{Name: "config-cached", F: func() string {
+		c, err := config.LoadFromFileCached(configPath)
+		if err != nil {
+			return "ERR: " + err.Error()
+		}
+		b, _ := json.Marshal(c)
+		return string(b)
+	}},
 	opParse("parse-short", qShort, false),
 	opParse("parse-tuple", qTuple, false),
 	opParse("parse-arr+release", qArr, true),
@@ -570,12 +602,16 @@ func opsInstance(family, name string, firstUse bool, hold int, holdQ string, seq
 			outcome := "results-sequential"
 			for i, names := range seqs {
 				for j, n := range names {
+					o := OpByName(n)
 					if pfs[i][j] != nil {
-						fails = append(fails, *pfs[i][j])
-						outcome = "panic"
+						// an operation that panics identically when run alone is not a
+						// concurrency failure (totality is property C01)
+						if o.NoCompare || res[i][j] != seq[fmt.Sprint(firstUse)+"/"+n] {
+							fails = append(fails, *pfs[i][j])
+							outcome = "panic"
+						}
 						continue
 					}
-					o := OpByName(n)
 					if o.NoCompare {
 						continue
 					}
